@@ -95,6 +95,8 @@ func EnumContents(l wsp.Layout, now int64, choices []SlotChoice, f func(rings []
 				rings[p.arch][cls] = wsp.Slot{T: uint32(p.t), V: ch.V}
 			case "stale":
 				rings[p.arch][cls] = wsp.Slot{T: uint32(p.t - a.Ret()), V: ch.V}
+			case "newer":
+				rings[p.arch][cls] = wsp.Slot{T: uint32(p.t + a.Ret()), V: ch.V}
 			}
 			rec(k + 1)
 		}
